@@ -31,12 +31,33 @@
 (*   update_in_place  update() sets the clauses on the registered object    *)
 (*   memo_on_class    the outcome is remembered per table class             *)
 (*                    (process-wide: leaks between connections)             *)
+(*                                                                         *)
+(* ROUTES.  The property speaks of the STATEMENT, not of the way it is      *)
+(* submitted.  A step of a session therefore also carries its route:        *)
+(*   "typed"  the text handed to Connection.execute / typed at the shell    *)
+(*            prompt (BQLShell.default -> dispatch)                         *)
+(*   "run"    the text stored in the ledger by a `query` directive dated    *)
+(*            QDate and submitted with the shell command `.run <name>`:     *)
+(*            BQLShell.parse(text, default_close_date = QDate) sits         *)
+(*            between the text and the compiler                             *)
+(* Declaratively PRINT emits the directives satisfying the FROM expression  *)
+(* after the OPEN / CLOSE / CLEAR of THE STATEMENT, on every route.  For a   *)
+(* stored BALANCES / JOURNAL whose FROM clause has no CLOSE the shell        *)
+(* supplies the date of the query directive as default closing date (as it  *)
+(* does for the SELECT it expands into); the property statement is silent   *)
+(* about that feature, so both readings are admitted (Admitted).            *)
+(*   run_closes_any   broken: the default closing date is applied to every  *)
+(*                    statement that has a FROM clause -- PRINT included    *)
 (***************************************************************************)
 EXTENDS MC_Statements, Json
 
 CONSTANTS NConn,      \* connections 1..NConn, connection c is attached to ledger c
           MaxSteps,   \* statements per session
-          Mech
+          Mech,
+          Routes      \* subset of {"typed", "run"}: how the statements of a session may be submitted
+
+\* the date of the `query` directives that store the statements of SessionShapes in the ledger (route "run")
+QDate == D20200601
 
 Empty == <<>>
 NoStrings == {}
@@ -66,7 +87,7 @@ Summ(c, cl) == [ledger |-> c, cl |-> cl]
 
 -----------------------------------------------------------------------------
 VARIABLES
-    steps,      \* the session so far: sequence of [c |-> connection, s |-> index into SessionShapes]
+    steps,      \* the session so far: sequence of [c |-> connection, s |-> index into SessionShapes, r |-> route]
     reg,        \* reg[c][t]: the table object registered under name t on connection c: [cl, memo]
     classmemo,  \* classmemo[t]: state kept on the table CLASS (used by the broken mechanism "memo_on_class" only)
     spc,        \* "idle" | "compiled"
@@ -89,20 +110,30 @@ SInit ==
 \* carries is carried along
 UpdateCopy(obj, cl) == [obj EXCEPT !.cl = cl]
 
+\* BQLShell.parse(line, default_close_date): the FROM clause that reaches the compiler.  `.run <name>` passes the date
+\* of the query directive; it is put into the FROM clause of a SELECT / BALANCES / JOURNAL that has a FROM clause
+\* without CLOSE.  A typed statement (default_close_date = None) and a PRINT go through unchanged.
+DefaultClosed(fc) == [fc EXCEPT !.close = [k |-> "on", d |-> QDate]]
+DefaultCloseApplies(s) == s.from.present /\ s.from.close.k = "none"
+ShellParse(s, r) ==
+    IF r = "run" /\ DefaultCloseApplies(s) /\ (s.kind # "print" \/ Mech = "run_closes_any")
+    THEN DefaultClosed(s.from) ELSE s.from
+
 \* Compiler._print / _select (through _balances / _journal): pick the registered table, apply the FROM clause
 SCompile ==
     /\ spc = "idle" /\ Len(steps) < MaxSteps
-    /\ \E c \in 1..NConn, n \in DOMAIN SessionShapes :
+    /\ \E c \in 1..NConn, n \in DOMAIN SessionShapes, r \in Routes :
           LET s == SessionShapes[n]
               t == TableOf(s)
               obj == reg[c][t]
-          IN /\ steps' = Append(steps, [c |-> c, s |-> n])
-             /\ IF ~s.from.present
+              fc == ShellParse(s, r)
+          IN /\ steps' = Append(steps, [c |-> c, s |-> n, r |-> r])
+             /\ IF ~fc.present
                 THEN /\ cur' = obj /\ curisreg' = TRUE /\ reg' = reg
                 ELSE IF Mech = "update_in_place"
-                     THEN /\ cur' = UpdateCopy(obj, Clauses(s.from)) /\ curisreg' = TRUE
-                          /\ reg' = [reg EXCEPT ![c][t] = UpdateCopy(obj, Clauses(s.from))]
-                     ELSE /\ cur' = UpdateCopy(obj, Clauses(s.from)) /\ curisreg' = FALSE /\ reg' = reg
+                     THEN /\ cur' = UpdateCopy(obj, Clauses(fc)) /\ curisreg' = TRUE
+                          /\ reg' = [reg EXCEPT ![c][t] = UpdateCopy(obj, Clauses(fc))]
+                     ELSE /\ cur' = UpdateCopy(obj, Clauses(fc)) /\ curisreg' = FALSE /\ reg' = reg
     /\ spc' = "compiled"
     /\ UNCHANGED <<classmemo, scanned, vars>>
 
@@ -128,23 +159,42 @@ SNext == SCompile \/ SExecute
 SSpec == SInit /\ [][SNext]_<<svars, vars>>
 
 -----------------------------------------------------------------------------
-(* the property: every statement is evaluated on (the ledger of its connection, its own clauses) -- whatever ran before *)
-Want(st) == Summ(st.c, OwnClauses(SessionShapes[st.s]))
-Independent == \A k \in DOMAIN scanned : scanned[k] = Want(steps[k])
+(* the property: every statement is evaluated on (the ledger of its connection, its own clauses) -- whatever ran before
+   and whatever the route.  The one freedom: a stored BALANCES / JOURNAL with a FROM clause without CLOSE may be closed
+   at the date of its query directive (see ROUTES above).  PRINT has no such freedom: `exactly the directives satisfying
+   the FROM expression after OPEN / CLOSE / CLEAR`. *)
+AdmittedClauses(st) ==
+    LET s == SessionShapes[st.s] IN
+    IF st.r = "run" /\ s.kind # "print" /\ DefaultCloseApplies(s)
+    THEN {OwnClauses(s), Clauses(DefaultClosed(s.from))}
+    ELSE {OwnClauses(s)}
+Admitted(st) == {Summ(st.c, cl) : cl \in AdmittedClauses(st)}
+Independent == \A k \in DOMAIN scanned : scanned[k] \in Admitted(steps[k])
 \* and the registered tables stay as attached
 RegisteredUntouched == \A c \in 1..NConn, t \in TableNames : reg[c][t] = NewTable
 
 -----------------------------------------------------------------------------
 (* spec -> code: the statement table (texts) and every complete session with, per statement, the version it must be
    evaluated on.  The driver realises `evaluated on version (c, cl)` as: the same statement on a connection that has
-   executed nothing else, attached to ledger c. *)
+   executed nothing else, attached to ledger c.  For a step on route "run" the admitted versions come with the text
+   of the statement carrying exactly those clauses: the driver types that text at the prompt of a shell that has
+   executed nothing else and requires the output of `.run <name>` to be one of them. *)
+WithClauses(s, cl) == IF s.from.present THEN [s EXCEPT !.from.open = cl.open, !.from.close = cl.close, !.from.clear = cl.clear] ELSE s
+AdmittedSeq(st) ==
+    LET s == SessionShapes[st.s]
+        own == OwnClauses(s)
+        rest == SetToSeq(AdmittedClauses(st) \ {own})
+        cls == <<own>> \o rest
+    IN [j \in DOMAIN cls |-> [ledger |-> st.c, cl |-> cls[j], stmt |-> StmtTokens(WithClauses(s, cls[j]))]]
 SessShapeInfo(s) == [kind |-> s.kind, f |-> s.f, from |-> s.from, where |-> s.where, acct |-> s.acct, short |-> StmtTokens(s),
                      expanded |-> IF s.kind = "print" THEN <<>> ELSE SelectTokens(Expand(s)),
                      clauses |-> HasClauses(s.from), own |-> OwnClauses(s)]
+QueryName(n) == "s" \o ToString(n)
 EmitSession ==
     IF steps = <<>> /\ spc = "idle"
-    THEN PrintT(ToJson([k |-> "shapes", shapes |-> [n \in DOMAIN SessionShapes |-> SessShapeInfo(SessionShapes[n])]]))
+    THEN PrintT(ToJson([k |-> "shapes", qdate |-> QDate, names |-> [n \in DOMAIN SessionShapes |-> QueryName(n)],
+                        shapes |-> [n \in DOMAIN SessionShapes |-> SessShapeInfo(SessionShapes[n])]]))
     ELSE IF Len(steps) = MaxSteps /\ spc = "idle"
-    THEN PrintT(ToJson([k |-> "session", steps |-> steps, want |-> [j \in DOMAIN steps |-> Want(steps[j])]]))
+    THEN PrintT(ToJson([k |-> "session", steps |-> steps, want |-> [j \in DOMAIN steps |-> AdmittedSeq(steps[j])]]))
     ELSE TRUE
 =============================================================================
